@@ -10,7 +10,7 @@
 
 package federation
 
-//@ func errStatus property C18,C20 pure
+//@ func errStatus trustedframe property C18,C20 pure
 //@   modifies nothing
 //@ iface backend.APIClientAuthorizationCurrent
 //@   modifies nothing
